@@ -12,10 +12,18 @@ os.environ['VERIF_NO_INLINE'] = '1'
 from engine import facts  # noqa
 
 out = {}
+locs = {}
 for v in ('A', 'B', 'C', 'D'):
     prog = facts.load(None, v)
     for f in prog.funcs.values():
         out.setdefault(f.file, set()).add(f.name)
+        names = locs.setdefault(f.file, {}).setdefault(f.name, set())
+        names.update(p['name'] for p in f.params)
+        for b, i, ev in f.events():
+            if ev['ev'] == 'decl':
+                names.add(ev['var']['name'])
+json.dump({k: {fn: sorted(ns) for fn, ns in sorted(v.items())} for k, v in sorted(locs.items())},
+          open(os.path.join(facts.VERIF, 'engine', 'baseline_locals.json'), 'w'), indent=0)
 path = os.path.join(facts.VERIF, 'engine', 'baseline_functions.json')
 json.dump({k: sorted(v) for k, v in sorted(out.items())}, open(path, 'w'), indent=0)
 print('%d files, %d functions -> %s' % (len(out), sum(len(v) for v in out.values()), path))
